@@ -178,7 +178,7 @@ OPTIONAL_ROWS = {("root::RootRef::create_file", 21)}
 def r3_synthesised_errnos(ctx):
     F = ctx.facts
     T = ctx.tracer
-    out = []
+    out = error_swaps(ctx, "C04.R3")
     seen = set()
     for b in F.fn_bodies():
         if is_bitflags_generated(b) or b.file == "src/syscalls.rs" or b.file.startswith("src/capi"):
@@ -394,6 +394,127 @@ def const_eq_tests_(b, T, c):
     return const_eq_tests(b, T, c)
 
 
+def error_swaps(ctx, rule, want=lambda b: True):
+    """A failing system call is reported as what it was: on the paths that exist only because a wrapper call failed
+    (its Err arm, or an error-mapping closure applied to its result) no errno is made up from a constant.  The
+    emulations synthesise kernel errnos for *situations* they detect themselves (table of R3), never as a
+    re-labelling of another failure -- the kernel would have reported that failure itself."""
+    from ..cut import failure_edges
+    F = ctx.facts
+    T = ctx.tracer
+    out = []
+    n = 0
+    for b in F.fn_bodies():
+        if is_bitflags_generated(b) or b.file == "src/syscalls.rs" or b.file.startswith("src/capi") or not want(b):
+            continue
+        fabs = [t for t in b.calls("std::io::Error::from_raw_os_error", "rustix::io::Errno::from_raw_os_error")
+                if any(o.kind == "const" for o in T.origins_of_arg(t, 0))]
+        fk = fn_key(b)
+        if b.kind == "closure":
+            # an error-mapping closure: takes the error of a failed call and answers with a constant errno
+            n += 1
+            takes_err = any(re.search(r"(syscalls::Error|std::io::Error|rustix::io::Errno|error::Error)\b", ty or "") for ty in b.local_tys[1:b.argc + 1])
+            if fabs and takes_err:
+                out.append(violated(rule, "%s:swap" % fk, fabs[0].where(), "an error-mapping closure replaces the error it is given with a constant errno (%s)" %
+                                    sorted({o.const_int(True) for t in fabs for o in T.origins_of_arg(t, 0) if o.kind == "const"})))
+            continue
+        if not fabs:
+            continue
+        cfg = cfg_of(b)
+        for t in b.calls():
+            c = t.callee or ""
+            if not (RX_WRAPPER.search(c) or os_entry_class(t)):
+                continue
+            fe = failure_edges(b, T, t)
+            if not fe or not fe[0]:
+                continue
+            n += 1
+            # blocks every path to which passes a failure edge of this call
+            only_fail = set(cfg.precise_reach(fe[0])) - set(cfg.reachable(cfg.entry, cut_edges=[e.key() for e in fe[0]]))
+            hit = [f for f in fabs if f.bb in only_fail]
+            if hit:
+                out.append(violated(rule, "%s:%s:swap" % (fk, c), hit[0].where(),
+                                    "when %s fails, the caller is given a made-up errno (%s) instead of the failure the kernel reported" %
+                                    (c, sorted({o.const_int(True) for f in hit for o in T.origins_of_arg(f, 0) if o.kind == "const"}))))
+    if not out:
+        out.append(holds(rule, "no-error-swap", "", "no constant errno is constructed on a path that exists only because a system call failed (%d failure paths / error closures examined)" % n))
+    return out
+
+
+PROBE = "syscalls::OPENAT2_IS_SUPPORTED::{closure#0}"
+
+
+def r8_backend_probe(ctx, rule="C04.R8"):
+    """Which backend a lookup runs on is decided once, by probing openat2.  The emulated backend exists for hosts
+    where openat2 does not work -- missing (ENOSYS) or denied (seccomp EPERM, ...) alike -- so the probe may answer
+    "supported" only when the probing call succeeded: whenever it failed the answer is the constant false."""
+    from ..cut import failure_edges
+    from ..dataflow import defuse
+    from ..facts import Place
+    F = ctx.facts
+    T = ctx.tracer
+    if not F.has(PROBE):
+        return [violated(rule, "OPENAT2_IS_SUPPORTED:probe", "", "anchor %s not found" % PROBE)]
+    b = F.body(PROBE)
+    calls = list(b.calls("syscalls::openat2"))
+    if len(calls) != 1:
+        return [violated(rule, "OPENAT2_IS_SUPPORTED:probe", b.where(), "expected one probing openat2 call, found %d" % len(calls))]
+    t = calls[0]
+    ro = T.return_origins(b)
+
+    def success_test(o, want="is_ok", depth=0):
+        """o is `probe.is_ok()` or `!probe.is_err()`"""
+        if o.kind == "call" and o.term.callee.endswith("::" + want):
+            return all(x.kind == "call" and x.term is t for x in T.origins_of_arg(o.term, 0))
+        if o.kind == "expr" and o.stmt is not None and o.stmt.rv.get("k") == "un" and o.stmt.rv.get("op") == "Not" and depth < 3:
+            pos = [(blk.idx, i) for blk in b.blocks for i, st in enumerate(blk.stmts) if st is o.stmt]
+            if not pos:
+                return False
+            inner = T.origins_of_operand(b, pos[0][0], pos[0][1], Operand(o.stmt.rv["a"]))
+            return bool(inner) and all(success_test(x, "is_err" if want == "is_ok" else "is_ok", depth + 1) for x in inner)
+        return False
+
+    if ro and all(success_test(o) for o in ro):
+        return [holds(rule, "OPENAT2_IS_SUPPORTED:probe", t.where(), "supported == the probing call succeeded (is_ok)")]
+    fe = failure_edges(b, T, t)
+    if fe is None:
+        return [violated(rule, "OPENAT2_IS_SUPPORTED:probe", t.where(), "the probe's answer is not derived from success/failure of the probing call: %s" % sorted({repr(o) for o in ro})[:4])]
+    cfg = cfg_of(b)
+    after_fail = set(cfg.precise_reach(fe[0]))
+    du = defuse(b)
+    ret = Place({"l": 0, "p": []})
+    bad = []
+    n = 0
+    for site in du.all_defs(0):
+        bb = site[1]
+        if bb not in after_fail:
+            continue
+        n += 1
+        idx = site[2] + 1 if site[0] == "a" else len(b.blocks[bb].stmts) + 1
+        o = T.origins(b, bb, idx, ret)
+        if not o or not all(x.kind == "const" and x.const_int() == 0 for x in o):
+            bad.append(", ".join(sorted({repr(x) for x in o}))[:200])
+    if bad:
+        return [violated(rule, "OPENAT2_IS_SUPPORTED:probe", t.where(), "openat2 can be reported as supported although the probing call failed (answer on the failure path: %s): "
+                         "a host that denies openat2 would run every lookup on the kernel backend and fail instead of using the emulated one" % "; ".join(bad))]
+    if not n:
+        return [violated(rule, "OPENAT2_IS_SUPPORTED:probe", t.where(), "no answer is produced on the failure path of the probing call")]
+    return [holds(rule, "OPENAT2_IS_SUPPORTED:probe", t.where(), "every answer on the failure path of the probing call is the constant false (%d assignment(s))" % n)]
+
+
+def r9_emulated_policies(ctx):
+    """Two kernel policies the emulated walk has to reproduce for the backends to agree: the number of symlinks a
+    lookup may traverse (C01.R7) and the fs.protected_symlinks decision (C15.R1)."""
+    from .c01 import r7_budget_vs_kernel
+    from .c15 import r1_decision_table
+    out = []
+    for fn in (r7_budget_vs_kernel, r1_decision_table):
+        for i in fn(ctx):
+            i.rule = "C04.R9"
+            out.append(i)
+    return out
+
+
 RULES = [
     ("C04.R1", r1_flag_preservation, 9, False),
     ("C04.R2", r2_validation_before_dispatch, 3, False),
@@ -402,4 +523,6 @@ RULES = [
     ("C04.R5", r5_oneshot_emulation, 3, False),
     ("C04.R6", r6_component_queue, 4, False),
     ("C04.R7", r7_symlink_stack_tables, 1, False),
+    ("C04.R8", r8_backend_probe, 1, False),
+    ("C04.R9", r9_emulated_policies, 2, False),
 ]
